@@ -712,3 +712,65 @@ def fpbits_to_float(d):
   if w == 16:
     return struct.unpack('<e', struct.pack('<H', b))[0]
   raise ValueError(w)
+
+
+class SymStr:
+  """Symbolic Python str: concatenation and (in)equality only."""
+  __slots__ = ('z',)
+
+  def __init__(self, z):
+    self.z = z
+
+  @staticmethod
+  def fresh(name, max_len=None, alphabet=None):
+    e = engine()
+    v = z3.String(name)
+    e.register_input(name, v)
+    if max_len is not None:
+      e.assume(z3.Length(v) <= max_len)
+    if alphabet is not None:
+      rx = z3.Star(z3.Union(*[z3.Re(c) for c in alphabet])) if len(
+          alphabet) > 1 else z3.Star(z3.Re(alphabet[0]))
+      e.assume(z3.InRe(v, rx))
+    return SymStr(v)
+
+  @staticmethod
+  def _z(o):
+    if isinstance(o, SymStr):
+      return o.z
+    if isinstance(o, str):
+      return z3.StringVal(o)
+    return None
+
+  def __add__(self, o):
+    z = SymStr._z(o)
+    if z is None:
+      return NotImplemented
+    return SymStr(z3.Concat(self.z, z))
+
+  def __radd__(self, o):
+    z = SymStr._z(o)
+    if z is None:
+      return NotImplemented
+    return SymStr(z3.Concat(z, self.z))
+
+  def __eq__(self, o):
+    z = SymStr._z(o)
+    if z is None:
+      return False
+    return mkbool(self.z == z)
+
+  def __ne__(self, o):
+    z = SymStr._z(o)
+    if z is None:
+      return True
+    return mkbool(self.z != z)
+
+  def __hash__(self):
+    return 11
+
+  def __deepcopy__(self, memo):
+    return self
+
+  def __repr__(self):
+    return f'SymStr({self.z})'
